@@ -162,6 +162,36 @@ func (v *VerifSyncNode) Snapshot() (raftpb.Snapshot, error) {
 	return s, nil
 }
 
+// SnapshotBegin / SnapshotFinish are the two halves of Snapshot() as a running node executes them: beginSnapshot
+// calls DataStorage.GetSnapshot inside the apply loop, at the applied position, and Snapshot.GetData later in a
+// goroutine while the apply loop goes on applying entries.
+type VerifPendingSnapshot struct {
+	sn          Snapshot
+	term, index uint64
+}
+
+func (v *VerifSyncNode) SnapshotBegin() (*VerifPendingSnapshot, error) {
+	sn, err := v.Node.rn.ds.GetSnapshot(v.np.appliedt, v.np.appliedi)
+	if err != nil {
+		return nil, err
+	}
+	return &VerifPendingSnapshot{sn: sn, term: v.np.appliedt, index: v.np.appliedi}, nil
+}
+
+func (v *VerifSyncNode) SnapshotFinish(ps *VerifPendingSnapshot) (raftpb.Snapshot, error) {
+	var s raftpb.Snapshot
+	data, err := ps.sn.GetData()
+	if err != nil {
+		return s, err
+	}
+	s.Data = data
+	s.Metadata.Index = ps.index
+	s.Metadata.Term = ps.term
+	v.Node.rn.ds.UpdateSnapshotState(s.Metadata.Term, s.Metadata.Index)
+	v.np.snapi = ps.index
+	return s, nil
+}
+
 // RestoreAtStart does what startRaft does with the newest snapshot of an existing WAL
 // (nil: no snapshot, the data is cleaned) before the WAL tail is replayed.
 func (v *VerifSyncNode) RestoreAtStart(s *raftpb.Snapshot) error {
